@@ -81,19 +81,17 @@ def showEntry (kv : Str × Enzyme) : List String :=
 def showEntries (m : List (Str × Enzyme)) : List String :=
   toString m.length :: (sortedEntries {} m).flatMap showEntry
 
-/-- the whole report of the harness for one text: Parse, Read, Export/Unmarshal, Export tokens -/
+/-- the whole report of the harness for one text: Parse, Read, Export/Unmarshal, the bytes of Export -/
 def report (m : Outcome (List (Str × Enzyme))) : List String :=
   match m with
-  | .ok m =>
-    let toks := tokens (exportJ m)
-    "ok" :: showEntries m ++ ["read-same", "json-same", toString toks.length] ++ toks
+  | .ok m => "ok" :: showEntries m ++ ["read-same", "json-same", toStr (exportText m)]
   | _ => ["panic"]
 
 /-! ### JSON values from tokens, JSON text (for the `import` cases) -/
 
 mutual
 /-- one value from the token stream (fuel = number of tokens is enough) -/
-def readJ : Nat → List String → Option (JVal × List String)
+def readJ : Nat → List String → Option (Rebase.JVal × List String)
   | 0, _ => none
   | f + 1, t :: r =>
     if t == "null" then some (.null, r)
@@ -102,7 +100,7 @@ def readJ : Nat → List String → Option (JVal × List String)
     else if t.startsWith "s:" then some (.str (t.toList.drop 2), r)
     else none
   | _, [] => none
-def readItems : Nat → List String → Option (List JVal × List String)
+def readItems : Nat → List String → Option (List Rebase.JVal × List String)
   | 0, _ => none
   | f + 1, t :: r =>
     if t == "]" then some ([], r)
@@ -110,7 +108,7 @@ def readItems : Nat → List String → Option (List JVal × List String)
       | some (v, r') => (readItems f r').map fun (vs, r'') => (v :: vs, r'')
       | none => none
   | _, [] => none
-def readFields : Nat → List String → Option (List (Str × JVal) × List String)
+def readFields : Nat → List String → Option (List (Str × Rebase.JVal) × List String)
   | 0, _ => none
   | f + 1, t :: r =>
     if t == "}" then some ([], r)
@@ -122,31 +120,7 @@ def readFields : Nat → List String → Option (List (Str × JVal) × List Stri
   | _, [] => none
 end
 
-def hexDigit (n : Nat) : Char := if n < 10 then Char.ofNat (48 + n) else Char.ofNat (87 + n)
-
-def jsonStr (s : Str) : Str :=
-  '"' :: s.flatMap (fun c =>
-    if c == '"' then ['\\', '"'] else if c == '\\' then ['\\', '\\']
-    else if c.toNat < 32 then ['\\', 'u', '0', '0', hexDigit (c.toNat / 16), hexDigit (c.toNat % 16)]
-    else [c]) ++ ['"']
-
-mutual
-def jsonText : JVal → Str
-  | .null => "null".toList
-  | .str s => jsonStr s
-  | .arr xs => '[' :: jsonItems xs ++ [']']
-  | .obj fs => '{' :: jsonFields fs ++ ['}']
-def jsonItems : List JVal → Str
-  | [] => []
-  | [v] => jsonText v
-  | v :: r => jsonText v ++ ',' :: jsonItems r
-def jsonFields : List (Str × JVal) → Str
-  | [] => []
-  | [(k, v)] => jsonStr k ++ ':' :: jsonText v
-  | (k, v) :: r => jsonStr k ++ ':' :: jsonText v ++ ',' :: jsonFields r
-end
-
-def decodeJ (toks : List String) : Option JVal :=
+def decodeJ (toks : List String) : Option Rebase.JVal :=
   match readJ (toks.length + 1) toks with
   | some (v, []) => some v
   | _ => none
@@ -173,7 +147,7 @@ def render (c : List String) : List String :=
   | ["rawhex", hex] => ["rebase_parse_hex", hex]
   | "import" :: toks =>
     match decodeJ toks with
-    | some v => ["rebase_import", str (jsonText v)]
+    | some v => ["rebase_import", toStr (toBase v).print]
     | none => ["bad"]
   | ["file", name] => ["rebase_file", name]
   | ["readmissing", x] => ["rebase_read_missing", x]
